@@ -14,6 +14,44 @@ type SetupResult struct {
 	K        []byte
 	AuthFail bool // M4 carried an authentication error (wrong code)
 	M4Error  byte
+	// Format lists where the accessory's messages deviate from the layout the specification gives for them
+	// (an item type that the message does not define, or a type occurring more than once). The flow itself is
+	// lenient about these, as deployed controllers are; a check that is about conformance reads the list.
+	Format []string
+}
+
+// layout reports the deviations of one TLV8 message from "each of these types at most once, nothing else".
+func layout(what string, body []byte, allowed ...byte) []string {
+	items, err := ParseTLV8(body)
+	if err != nil {
+		return nil
+	}
+	var out []string
+	count := map[byte]int{}
+	for _, it := range items {
+		count[it.Tag]++
+	}
+	ok := map[byte]bool{}
+	for _, a := range allowed {
+		ok[a] = true
+	}
+	for _, it := range items {
+		if c := count[it.Tag]; c > 1 {
+			var vals []string
+			for _, x := range items {
+				if x.Tag == it.Tag {
+					vals = append(vals, fmt.Sprintf("%x", x.Value))
+				}
+			}
+			out = append(out, fmt.Sprintf("%s carries %d items of type 0x%02x (values %v)", what, c, it.Tag, vals))
+			count[it.Tag] = 0
+		}
+		if !ok[it.Tag] {
+			out = append(out, fmt.Sprintf("%s carries an item of type 0x%02x, which the specification does not define for it", what, it.Tag))
+			ok[it.Tag] = true
+		}
+	}
+	return out
 }
 
 // PairSetup runs M1..M6 as a conformant controller, verifying everything the accessory sends.
@@ -25,6 +63,8 @@ func PairSetup(tr Transport, c *Controller, code string, entropy []byte) (*Setup
 	if r.Status != 200 {
 		return nil, fmt.Errorf("M1 answered with HTTP %d", r.Status)
 	}
+	var format []string
+	format = append(format, layout("pair-setup M2", r.Body, TagState, TagPublicKey, TagSalt, TagError)...)
 	m2, err := ParseSetupM2(r.Body)
 	if err != nil {
 		return nil, fmt.Errorf("M2: %v", err)
@@ -49,6 +89,7 @@ func PairSetup(tr Transport, c *Controller, code string, entropy []byte) (*Setup
 	if r.Status != 200 {
 		return nil, fmt.Errorf("M3 answered with HTTP %d", r.Status)
 	}
+	format = append(format, layout("pair-setup M4", r.Body, TagState, TagProof, TagError, TagEncryptedData)...)
 	m4, err := ParseSetupM4(r.Body)
 	if err != nil {
 		return nil, fmt.Errorf("M4: %v", err)
@@ -57,7 +98,7 @@ func PairSetup(tr Transport, c *Controller, code string, entropy []byte) (*Setup
 		return nil, fmt.Errorf("M4: state %d", m4.State)
 	}
 	if m4.HasError {
-		return &SetupResult{AuthFail: m4.ErrorCode == ErrAuthentication, M4Error: m4.ErrorCode}, nil
+		return &SetupResult{AuthFail: m4.ErrorCode == ErrAuthentication, M4Error: m4.ErrorCode, Format: format}, nil
 	}
 	if !srp.VerifyServerProof(m4.Proof) {
 		return nil, fmt.Errorf("M4: the accessory's SRP proof does not verify")
@@ -70,6 +111,7 @@ func PairSetup(tr Transport, c *Controller, code string, entropy []byte) (*Setup
 	if r.Status != 200 {
 		return nil, fmt.Errorf("M5 answered with HTTP %d", r.Status)
 	}
+	format = append(format, layout("pair-setup M6", r.Body, TagState, TagEncryptedData, TagError)...)
 	m6, err := ParseSetupM6(r.Body, sk, srp.K)
 	if err != nil {
 		return nil, fmt.Errorf("M6: %v", err)
@@ -77,7 +119,7 @@ func PairSetup(tr Transport, c *Controller, code string, entropy []byte) (*Setup
 	if m6.HasError || m6.State != 6 {
 		return nil, fmt.Errorf("M6: state %d error %d", m6.State, m6.ErrorCode)
 	}
-	return &SetupResult{AccID: m6.AccID, AccLTPK: m6.AccLTPK, K: srp.K}, nil
+	return &SetupResult{AccID: m6.AccID, AccLTPK: m6.AccLTPK, K: srp.K, Format: format}, nil
 }
 
 // PairVerify runs M1..M4 as a conformant controller and returns the shared secret.
@@ -89,39 +131,55 @@ func PairVerify(tr Transport, c *Controller, accLTPK []byte, entropy []byte) ([]
 // learnt in pair-setup M6 (HAP 5.7.2: "use the accessory's Pairing Identifier to look up the accessory's
 // long-term public key in its list of paired accessories; if not found, abort"): accID == "" skips the look-up.
 func PairVerifyAs(tr Transport, c *Controller, accLTPK []byte, accID string, entropy []byte) ([]byte, error) {
-	v := NewVerifyState(entropy)
-	r, err := tr.Do("POST", "/pair-verify", ContentTLV8, VerifyM1(v.EphPublic))
-	if err != nil {
-		return nil, fmt.Errorf("verify M1: %v", err)
-	}
-	if r.Status != 200 {
-		return nil, fmt.Errorf("verify M1 answered with HTTP %d", r.Status)
-	}
-	m2, err := v.HandleVerifyM2(r.Body, accLTPK)
-	if err != nil {
-		return nil, fmt.Errorf("verify M2: %v", err)
-	}
-	if m2.HasError || m2.State != 2 {
-		return nil, fmt.Errorf("verify M2: state %d error %d", m2.State, m2.ErrorCode)
-	}
-	if accID != "" && m2.AccID != accID {
-		return nil, fmt.Errorf("verify M2 names the accessory %q, pair-setup M6 paired the controller with %q: no long-term key is stored for that pairing identifier", m2.AccID, accID)
-	}
-	r, err = tr.Do("POST", "/pair-verify", ContentTLV8, VerifyM3(v.Key, v.VerifyM3Plain(c)))
-	if err != nil {
-		return nil, fmt.Errorf("verify M3: %v", err)
-	}
-	if r.Status != 200 {
-		return nil, fmt.Errorf("verify M3 answered with HTTP %d", r.Status)
-	}
-	m4, err := ParseVerifyM4(r.Body)
-	if err != nil {
-		return nil, fmt.Errorf("verify M4: %v", err)
-	}
-	if m4.HasError || m4.State != 4 {
-		return nil, fmt.Errorf("verify M4: state %d error %d", m4.State, m4.ErrorCode)
-	}
-	return v.Shared, nil
+	shared, _, err := PairVerifyReport(tr, c, accLTPK, accID, entropy)
+	return shared, err
+}
+
+// PairVerifyReport is PairVerifyAs and also returns the layout deviations of the accessory's two messages.
+func PairVerifyReport(tr Transport, c *Controller, accLTPK []byte, accID string, entropy []byte) ([]byte, []string, error) {
+	shared, format, err := pairVerifyReport(tr, c, accLTPK, accID, entropy)
+	return shared, format, err
+}
+
+func pairVerifyReport(tr Transport, c *Controller, accLTPK []byte, accID string, entropy []byte) (sharedSecret []byte, format []string, err error) {
+	shared, err := func() ([]byte, error) {
+		v := NewVerifyState(entropy)
+		r, err := tr.Do("POST", "/pair-verify", ContentTLV8, VerifyM1(v.EphPublic))
+		if err != nil {
+			return nil, fmt.Errorf("verify M1: %v", err)
+		}
+		if r.Status != 200 {
+			return nil, fmt.Errorf("verify M1 answered with HTTP %d", r.Status)
+		}
+		format = append(format, layout("pair-verify M2", r.Body, TagState, TagPublicKey, TagEncryptedData, TagError)...)
+		m2, err := v.HandleVerifyM2(r.Body, accLTPK)
+		if err != nil {
+			return nil, fmt.Errorf("verify M2: %v", err)
+		}
+		if m2.HasError || m2.State != 2 {
+			return nil, fmt.Errorf("verify M2: state %d error %d", m2.State, m2.ErrorCode)
+		}
+		if accID != "" && m2.AccID != accID {
+			return nil, fmt.Errorf("verify M2 names the accessory %q, pair-setup M6 paired the controller with %q: no long-term key is stored for that pairing identifier", m2.AccID, accID)
+		}
+		r, err = tr.Do("POST", "/pair-verify", ContentTLV8, VerifyM3(v.Key, v.VerifyM3Plain(c)))
+		if err != nil {
+			return nil, fmt.Errorf("verify M3: %v", err)
+		}
+		if r.Status != 200 {
+			return nil, fmt.Errorf("verify M3 answered with HTTP %d", r.Status)
+		}
+		format = append(format, layout("pair-verify M4", r.Body, TagState, TagError)...)
+		m4, err := ParseVerifyM4(r.Body)
+		if err != nil {
+			return nil, fmt.Errorf("verify M4: %v", err)
+		}
+		if m4.HasError || m4.State != 4 {
+			return nil, fmt.Errorf("verify M4: state %d error %d", m4.State, m4.ErrorCode)
+		}
+		return v.Shared, nil
+	}()
+	return shared, format, err
 }
 
 // VerifyAndSecure runs pair-verify on a TCP client and switches it to the encrypted session.
